@@ -391,7 +391,13 @@ def run_sequential(ctx, case):
   ctor_of = {'sa': 'c18ctorA', 'sb': 'c18ctorB', 'sc': 'c18ctorC', 'zz': None}
   for op in case['ops']:
     if op[0] == 'clear':
-      gin.clear_config()
+      # either form of the clear forgets the singletons (no constants are involved here)
+      nclear = ctx.counters.get('clears', 0)
+      if nclear % 2:
+        gin.clear_config(clear_constants=True)
+        ctx.bucket('clear:with-constants')
+      else:
+        gin.clear_config()
       gin.parse_config(BASE_CONFIG)
       dead.extend(cache.values())
       cache.clear()
